@@ -1,0 +1,44 @@
+//go:build verif
+
+package mqtt
+
+import (
+	"net"
+	"sync/atomic"
+)
+
+// VerifHook, when set, is invoked at each verifPoint with the name of the
+// point. The hook may yield, sleep or park the calling goroutine.
+var VerifHook atomic.Pointer[func(point string)]
+
+// VerifNoteHook, when set, receives each verifNote.
+var VerifNoteHook atomic.Pointer[func(name string, value int64)]
+
+func verifPoint(point string) {
+	if f := VerifHook.Load(); f != nil {
+		(*f)(point)
+	}
+}
+
+func verifNote(name string, value int64) {
+	if f := VerifNoteHook.Load(); f != nil {
+		(*f)(name, value)
+	}
+}
+
+// VerifEncodeValue exposes the storage encoding, read only.
+func VerifEncodeValue(packet net.Buffers, seqNo uint64) net.Buffers {
+	return encodeValue(packet, seqNo)
+}
+
+// VerifDecodeValue exposes the storage decoding, read only.
+func VerifDecodeValue(buf []byte) (packet []byte, seqNo uint64, err error) {
+	return decodeValue(buf)
+}
+
+// VerifReadBufSize returns the read-buffer size in use.
+func VerifReadBufSize() int { return readBufSize }
+
+// VerifSetReadBufSize sets the read-buffer size for Clients connecting from
+// now on. Not safe for use while any Client is active.
+func VerifSetReadBufSize(n int) { readBufSize = n }
